@@ -25,6 +25,13 @@ func (rt *Transfer) GenerateFiles(ctx context.Context, fileList []*File) error {
 			// The receiver failed: do not request any more files.
 			return err
 		}
+		if idx > 0 && f.Name == fileList[idx-1].Name {
+			// Several source arguments can yield the same name. Like
+			// rsync/flist.c:clean_flist, use the first such entry only: if
+			// both were requested, each run would overwrite what the other
+			// entry left behind, and a repeated sync would never settle.
+			continue
+		}
 		if err := rt.recvGenerator(idx, f); err != nil {
 			return err
 		}
